@@ -147,6 +147,23 @@ def search(ck, tier, seed):
                         dd = y[1:] - y[:-1]
                         if bool((dd < -(ttol if (fam == "cubic" and inverse) else 1e-12 * max(1.0, B))).any()):
                             ck.finding("spline-tails:not-monotone-across-bound:%s" % tag, "K=%d B=%g params=%s" % (K, B, kind), case)
+                        # single precision at the junction, for bounds that float32 rounds (0.1, 0.3, 1.1 ...): the mask that routes an
+                        # input into the spline and the spline's own domain check must agree about float32(+-B)
+                        if kind == "normal" and mins is None:
+                            for Bq in (0.1, 0.3, 1.1, B):
+                                b32 = torch.tensor(Bq, dtype=torch.float32)
+                                x32 = torch.stack([-b32, b32, torch.nextafter(b32, torch.tensor(0.0)), -torch.nextafter(b32, torch.tensor(0.0)), b32 * 0.5])
+                                p32 = {k_: v_.float() for k_, v_ in params.items()}
+                                r32 = sh.call(fam, inverse, x32, p32, tail_bound=Bq)
+                                if r32[0] != "ok":
+                                    ck.finding("spline-tails:raises:%s:%s" % (tag, r32[1]),
+                                               "K=%d tail bound %g, float32 inputs at the junction %s: %s" % (K, Bq, x32[:2].tolist(), str(r32[2])[:80]), case)
+                                    break
+                                y32 = r32[1][0]
+                                if not (fam == "cubic" and inverse) and (abs(float(y32[0]) + float(b32)) > 1e-5 * max(1.0, Bq) or abs(float(y32[1]) - float(b32)) > 1e-5 * max(1.0, Bq)):
+                                    ck.finding("spline-tails:discontinuous-at-bound:%s" % tag,
+                                               "K=%d tail bound %g (float32): f(+-B) = %r, %r" % (K, Bq, float(y32[0]), float(y32[1])), case)
+                                    break
                         # the same values in another memory layout (a transposed, i.e. column-major, batch of two features): the
                         # transformer is a function of the VALUES; masked writes through a flattened copy would be lost
                         n_ = x.shape[0]
